@@ -1,4 +1,237 @@
-(** C08 - no request can crash a handler or make it spin. (under construction) *)
-From Verif Require Import GoSem UrlStr UrlCfg UrlHandler.
-Example C08_example : process_url_cfg "/livesim2/stoprel_x/testpic_2s/Manifest.mpd" 100000 = Panic "app.processURLCfg: nil dereference".
-Proof. vm_compute. reflexivity. Qed.
+(** C08 - no request can crash a handler or make it spin.
+    Only statements; every proof is [exact <lemma>] (theories/UrlCfgProofs.v, UrlWitness.v).
+
+    [fx : fixes] says which of the proposed repairs a tree contains; [current] (UrlFixes.v) is the
+    tree under test and is what the correspondence runs against.  The full statement - no request
+    makes [handler_model] panic or hang - is false of [current] while any field of it is [false]:
+    the C08_refuted_* theorems give a witness request per site. *)
+From Coq Require Import String List ZArith Bool Floats.
+From Verif Require Import GoSem UrlStr UrlFixes UrlCfg UrlHandler UrlCfgProofs UrlWitness.
+
+(** ** The URL-configuration parser *)
+
+(** For ANY path and clock the parser (all 41 keys, the accumulated error, verifyAndFillConfig)
+    returns a configuration or an error; it can only panic at the stoprel dereference and at the
+    annexI index, and only on a tree without the respective repair.  Induction over the parts. *)
+Theorem C08_parser_total : forall fx path now s,
+  process_url_cfg fx path now = Panic s ->
+  (fx_stoprel fx = false /\ s = "app.processURLCfg: nil dereference") \/
+  (fx_annexI fx = false /\ s = "app.(*strConvAccErr).ParseQuery: index out of range").
+Proof. exact parser_total. Qed.
+Print Assumptions C08_parser_total.
+
+Theorem C08_parser_total_guarded : forall fx path now,
+  fx_stoprel fx = true -> fx_annexI fx = true -> forall s, process_url_cfg fx path now <> Panic s.
+Proof. exact parser_total_guarded. Qed.
+Print Assumptions C08_parser_total_guarded.
+
+(** On any tree: a URL without a stoprel_ and without an annexI_ part cannot make the parser panic. *)
+Theorem C08_parser_total_without_keys : forall fx path now s,
+  no_key is_stoprel is_annexI (split_on "/"%char (plus_to_space path)) = true ->
+  process_url_cfg fx path now <> Panic s.
+Proof. exact parser_total_without_keys. Qed.
+Print Assumptions C08_parser_total_without_keys.
+
+(** A configuration returned by the parser never has a nil TimeShiftBufferDepthS or StartNr (the
+    handlers dereference both unchecked), and carries the guards of the repairs in the parser. *)
+Theorem C08_parser_establishes_G : forall fx path now c,
+  process_url_cfg fx path now = Ok c ->
+  c_tsbd c <> None /\ c_startNr c <> None /\
+  (fx_periods fx = true -> match c_pph c with Some n => 1 <= n <= 3600 | None => True end) /\
+  (fx_subsdur fx = true -> 0 < c_subsDurMS c) /\
+  (fx_snr fx = true -> match c_startNr c with Some n => n <= maxu32 | None => True end) /\
+  0 <= now.
+Proof. exact parser_establishes. Qed.
+Print Assumptions C08_parser_establishes_G.
+
+(** ** Status classes *)
+
+(** A parse error anywhere in the URL is a 400 whose body carries the parser's message ... *)
+Theorem C08_status_class_parse_error : forall fx e path nowArg uq now m,
+  atoi nowArg = Some now -> process_url_cfg fx path now = Err m ->
+  live_handler fx e path nowArg uq = HStatus 400 m.
+Proof. exact parse_error_is_400. Qed.
+Print Assumptions C08_status_class_parse_error.
+
+(** ... which names the key for every value strconv rejects. *)
+Theorem C08_status_class_key_in_message : forall key val, atoi val = None ->
+  sc_atoi None key val = (0, Some ("key=" +++ key +++ ", err=")) /\
+  sc_atoi_ptr None key val = (None, Some ("key=" +++ key +++ ", err=")).
+Proof. exact (fun key val H => conj (sc_atoi_error key val H) (sc_atoi_ptr_error key val H)). Qed.
+Print Assumptions C08_status_class_key_in_message.
+
+Theorem C08_status_class_bad_now : forall fx e path nowArg uq,
+  atoi nowArg = None -> live_handler fx e path nowArg uq = HStatus 400 "bad nowMS query".
+Proof. exact bad_now_is_400. Qed.
+Print Assumptions C08_status_class_bad_now.
+
+Theorem C08_status_class_unknown_asset : forall fx e path nowArg uq now c,
+  atoi nowArg = Some now -> process_url_cfg fx path now = Ok c -> c_timeOffset c = None ->
+  (now <? i64 (c_startS c * 1000)) = false ->
+  find_asset (e_assets e) (join "/" (dropZ (c_contentIdx c) (c_parts c))) = None ->
+  live_handler fx e path nowArg uq = HStatus 404 "unknown asset".
+Proof. exact unknown_asset_is_404. Qed.
+Print Assumptions C08_status_class_unknown_asset.
+
+Theorem C08_status_class_below_start : forall r loopMS c segPart segID now,
+  rep_type c segPart = 0 -> u32 segID < u32 (start_nr c) ->
+  lookup_plain r loopMS c segPart segID now = Ret e404.
+Proof. exact below_start_is_404_plain. Qed.
+Print Assumptions C08_status_class_below_start.
+
+Theorem C08_status_class_below_start_audio : forall a r c segPart segID now,
+  rep_type c segPart = 0 -> u32 segID < u32 (start_nr c) ->
+  find_ref_seg_meta a r c segPart segID now = Ret e404.
+Proof. exact below_start_is_404_audio. Qed.
+Print Assumptions C08_status_class_below_start_audio.
+
+Theorem C08_status_class_unknown_rep : forall a c segPart now,
+  find_rep (a_reps a) segPart = RMnone -> create_out_seg a c segPart now = Ret e404.
+Proof. exact unknown_rep_is_404. Qed.
+Print Assumptions C08_status_class_unknown_rep.
+
+(** ** The full statement is false of the tree as found: one witness per site *)
+Theorem C08_refuted_stoprel : fx_stoprel current = false ->
+  exists r, handler_model current envW r = HPanic "app.processURLCfg: nil dereference".
+Proof. exact refuted_stoprel. Qed.
+Theorem C08_refuted_annexI : fx_annexI current = false ->
+  exists r, handler_model current envW r = HPanic "app.(*strConvAccErr).ParseQuery: index out of range".
+Proof. exact refuted_annexI. Qed.
+Theorem C08_refuted_traffic_empty : fx_loss current = false ->
+  exists r, handler_model current envW r = HPanic "app.LossItvls.StateAt: integer divide by zero".
+Proof. exact refuted_traffic_empty. Qed.
+Theorem C08_refuted_traffic_wrap : fx_loss current = false ->
+  exists r, handler_model current envW r = HPanic "app.LossItvls.StateAt: integer divide by zero".
+Proof. exact refuted_traffic_wrap. Qed.
+Theorem C08_refuted_traffic_index : fx_traffic_idx current = false ->
+  exists r, handler_model current envW r = HPanic "app.(*Server).livesimHandlerFunc: index out of range".
+Proof. exact refuted_traffic_index. Qed.
+Theorem C08_refuted_periods_zero : fx_periods current = false ->
+  exists r, handler_model current envW r = HPanic "app.splitPeriod: integer divide by zero".
+Proof. exact refuted_periods_zero. Qed.
+Theorem C08_refuted_periods_5000 : fx_periods current = false ->
+  exists r, handler_model current envW r = HPanic "app.splitPeriod: integer divide by zero".
+Proof. exact refuted_periods_5000. Qed.
+Theorem C08_refuted_periods_negative : fx_periods current = false ->
+  exists r, handler_model current envW r = HPanic "app.lastPeriodStartTime: index out of range".
+Proof. exact refuted_periods_negative. Qed.
+Theorem C08_refuted_periods_cap : fx_periods current = false ->
+  exists r, handler_model current envW r = HPanic "app.splitPeriod: makeslice: cap out of range".
+Proof. exact refuted_periods_cap. Qed.
+Theorem C08_refuted_timesubsdur_zero : fx_subsdur current = false ->
+  exists r, handler_model current envW r = HPanic "app.calcCueItvls: integer divide by zero".
+Proof. exact refuted_timesubsdur_zero. Qed.
+Theorem C08_refuted_timesubsdur_spin : fx_subsdur current = false ->
+  exists r, handler_model current envW r = HHang "app.calcCueItvls: loop".
+Proof. exact refuted_timesubsdur_spin. Qed.
+Theorem C08_refuted_chunkdur : fx_chunkdur current = false ->
+  exists r, handler_model current envW r = HPanic "app.chunkSegment: integer divide by zero".
+Proof. exact refuted_chunkdur. Qed.
+Theorem C08_refuted_chunkdur_wrap : fx_chunkdur current = false ->
+  exists r, handler_model current envW r = HPanic "app.chunkSegment: integer divide by zero".
+Proof. exact refuted_chunkdur_wrap. Qed.
+Theorem C08_refuted_chunk_sleep : fx_chunkdur current = false ->
+  exists r, handler_model current envW r = HHang "app.writeChunkedSegment: sleep".
+Proof. exact refuted_chunk_sleep. Qed.
+Theorem C08_refuted_timesubs_startnr : fx_subs_startnr current = false ->
+  exists r, handler_model current envW r = HPanic "app.findSegMetaFromNr: index out of range".
+Proof. exact refuted_timesubs_startnr. Qed.
+Theorem C08_refuted_snr_truncated : fx_snr current = false ->
+  exists r, handler_model current envW r = HPanic "app.findSegMetaFromNr: index out of range".
+Proof. exact refuted_snr_truncated. Qed.
+Theorem C08_refuted_statuscode_startnr : fx_status_startnr current = false ->
+  exists r, handler_model current envW r = HPanic "app.findSegStartTime: index out of range".
+Proof. exact refuted_statuscode_startnr. Qed.
+Theorem C08_refuted_statuscode_cycle : fx_status_cycle current = false ->
+  exists r, handler_model current envW r = HPanic "app.calcStatusCode: integer divide by zero".
+Proof. exact refuted_statuscode_cycle. Qed.
+Theorem C08_refuted_drm_init : fx_drm current = false ->
+  exists r, handler_model current envW r = HPanic "app.matchInit: nil dereference".
+Proof. exact refuted_drm_init. Qed.
+Theorem C08_refuted_drm_media : fx_drm current = false ->
+  exists r, handler_model current envW r = HPanic "app.encryptFrags: nil dereference".
+Proof. exact refuted_drm_media. Qed.
+Theorem C08_refuted_eccp_text : fx_drm current = false ->
+  exists r, handler_model current envW r = HPanic "app.encryptFrags: nil dereference".
+Proof. exact refuted_eccp_text. Qed.
+Theorem C08_refuted_kid : fx_kid current = false ->
+  exists r, handler_model current envW r = HPanic "app.kidToKey: keyID does not start with 3 k i d bytes".
+Proof. exact refuted_kid. Qed.
+Theorem C08_refuted_urlgen_tsbd : fx_urlgen_create current = false ->
+  exists r, handler_model current envW r = HPanic "app.createURL: bad tsbd".
+Proof. exact refuted_urlgen_tsbd. Qed.
+Theorem C08_refuted_urlgen_ltgt : fx_urlgen_create current = false ->
+  exists r, handler_model current envW r = HPanic "app.createURL: bad ltgt".
+Proof. exact refuted_urlgen_ltgt. Qed.
+Theorem C08_refuted_urlgen_patch_ttl : fx_urlgen_create current = false ->
+  exists r, handler_model current envW r = HPanic "app.createURL: bad patch-ttl".
+Proof. exact refuted_urlgen_patch_ttl. Qed.
+Theorem C08_refuted_urlgen_drms : fx_urlgen_drms current = false ->
+  exists r, handler_model current envW r = HPanic "app.(*Server).urlGenHandlerFunc: index out of range".
+Proof. exact refuted_urlgen_drms. Qed.
+Print Assumptions C08_refuted_urlgen_drms.
+
+(** With every repair recorded, each of the 26 witness requests gets a deliberate status. *)
+Theorem C08_witnesses_repaired :
+  map (fun r => status_of (handler_model all_fixed envW r)) all_witnesses =
+  [400; 400; 400; 400; 400; 400; 400; 400; 400; 400; 400; 400; 400; 400; 404; 400; 404; 400; 400; 400; 200;
+   400; 400; 400; 400; 200].
+Proof. exact witnesses_repaired. Qed.
+Print Assumptions C08_witnesses_repaired.
+
+(** ** Totality under the guards *)
+
+(** Licence and urlgen requests: the full statement under the guard G (key ids with the livesim2
+    prefix; integer tsbd/ltgt/patch-ttl; a DRM configuration for /urlgen/drms) - each conjunct is
+    dropped by the corresponding repair. *)
+Theorem C08_total_guarded_other : forall fx e r,
+  G_other fx e r = true -> is_bad (handler_model fx e r) = false.
+Proof. exact other_requests_total. Qed.
+Print Assumptions C08_total_guarded_other.
+
+Theorem C08_total_other_fixed : forall fx e r,
+  fx_kid fx = true -> fx_urlgen_create fx = true -> fx_urlgen_drms fx = true ->
+  match r with RLive _ _ _ => True | _ => is_bad (handler_model fx e r) = false end.
+Proof. exact other_requests_total_fixed. Qed.
+Print Assumptions C08_total_other_fixed.
+
+(** GET /livesim2: PARTIAL.  Proved per component, each under the guard of its site; what is
+    missing is the composition over [live_handler] (status_loop, time_subs_media, chunked_tail,
+    live_mpd are not yet composed), see meta/C08.json. *)
+Theorem C08_total_guarded_partial_seg_index : forall r loopMS c nr now,
+  r_segs r <> [] -> c_tsbd c <> None -> 0 <= nr - start_nr c < two63 ->
+  hm_bad (seg_meta_from_nr r loopMS c nr now) = false.
+Proof. exact seg_meta_from_nr_safe. Qed.
+Print Assumptions C08_total_guarded_partial_seg_index.
+
+Theorem C08_total_guarded_partial_traffic : forall fx c segPart now,
+  String.prefix "/" segPart = true -> cycles_ok c = true ->
+  (fx_traffic_idx fx = true \/
+   forall nr sp, extract_pattern segPart = Ok (nr, sp) -> nr < lenZ (c_traffic c)) ->
+  hm_bad (traffic_gate fx c segPart now) = false.
+Proof. exact traffic_gate_safe. Qed.
+Print Assumptions C08_total_guarded_partial_traffic.
+
+Theorem C08_total_guarded_partial_periods : forall a c pph startMS nowMS,
+  1 <= pph <= 3600 -> a_segDurMS a <> 0 -> 0 <= startMS <= nowMS ->
+  is_bad (split_period a c pph startMS nowMS) = false.
+Proof. exact split_period_safe. Qed.
+Print Assumptions C08_total_guarded_partial_periods.
+
+Theorem C08_total_guarded_partial_cues : forall segStart segDur utcStart cueDur,
+  0 < f_to_int (f_ceil (PrimFloat.mul (f_of_int cueDur) f_milli)) < 9000000000000000 ->
+  hm_bad (calc_cue_itvls segStart segDur utcStart cueDur) = false.
+Proof. exact calc_cue_itvls_safe. Qed.
+Print Assumptions C08_total_guarded_partial_cues.
+
+(** Non-vacuity: a hostile but well-formed URL parses to a configuration that satisfies the
+    established guards, and the guarded components apply to it. *)
+Example C08_example :
+  match process_url_cfg all_fixed "/livesim2/tsbd_30/periods_60/snr_7/timesubsdur_1500/traffic_u10d5,d3/a/bu1/V/45.m4s" 100000 with
+  | Ok c => c_tsbd c = Some 30 /\ c_pph c = Some 60 /\ c_startNr c = Some 7 /\ c_subsDurMS c = 1500 /\
+            cycles_ok c = true /\ c_contentIdx c = 7
+  | _ => False
+  end /\
+  handler_model all_fixed envW (RLive "/livesim2/tsbd_30/traffic_u10d5,d3/a/bu1/V/45.m4s" "100000" [("nowMS", ["100000"])]) = HStatus 404 "Not Found" /\
+  handler_model none_fixed envW (RLive "/livesim2/tsbd_x/stoprel_5/a/M.mpd" "100000" []) = HPanic "app.processURLCfg: nil dereference".
+Proof. vm_compute. repeat split; reflexivity. Qed.
